@@ -565,6 +565,7 @@ def stream_gp(c, n):
                          relaxation=rng.choice([0.5, 1.0, 2.0, 0.25])),
                     dict(priority=3, kind="min", order=1, weight=1.0, nominal=1.0, var="x0", sign=-1.0)]
             spec[0]["order"] = 1
+            c.hit("gp/class/relaxed-minimisation-then-opposite-push")
         elif r < 0.9:
             # a third priority, so that the value retained for the minimisation goal matters
             spec = spec + [dict(priority=3, kind="min", order=1, weight=1.0, nominal=1.0,
@@ -613,6 +614,13 @@ def stream_gp(c, n):
                 # priorities is the point (per-step values).  So a goal's own optimum is compared only
                 # if no earlier priority had a possibly non-unique minimiser; earlier goals keep their
                 # optimal value in any case.
+                first_soft = min(i for i, g in enumerate(specs[0]) if not g.get("critical"))
+                if k > first_soft and any(g.get("critical") for g in specs[0]):
+                    # with a hard band on the control the target band on the state cannot be met by a
+                    # pointwise-best trajectory: the per-step epsilons of the order-1 target goal are
+                    # then not unique, and what is retained for later priorities is the point
+                    c.hit("gp/later-priorities-skipped (critical goal: epsilons not unique)")
+                    continue
                 if j == k and any(g["kind"] == "min" and g["order"] == 1 for g in specs[0][:j]):
                     c.hit("gp/own-optimum-skipped (earlier LP minimiser not unique)")
                     continue
